@@ -320,6 +320,11 @@ package gldap
 // ---- control.go -------------------------------------------------------------------------
 //@ func gldap.decodeControl
 //@   ensures err == nil ==> !isNilIface(result0)
+//@   ensures[C01,C14] err == nil ==> packet != nil && old(nkids(packet)) >= 1 && old(nkids(packet)) <= 3 && old(typeIs(kid(packet,0).Value, string))
+//@   ensures[C01,C14] err == nil && typeIs(result0, *ControlString) ==> result0.(*ControlString).ControlType == old(strval(kid(packet,0)))
+//@   ensures[C01,C14] err == nil && typeIs(result0, *ControlManageDsaIT) ==> old(strval(kid(packet,0))) == ControlTypeManageDsaIT
+//@   ensures[C01,C14] err == nil && typeIs(result0, *ControlPaging) ==> old(strval(kid(packet,0))) == ControlTypePaging
+//@   ensures[C01,C14] err == nil && typeIs(result0, *ControlBeheraPasswordPolicy) ==> old(strval(kid(packet,0))) == ControlTypeBeheraPasswordPolicy
 //@   panics false
 //@   modifies all(ber.Packet), cell(*ber.Packet), G_bufdata, G_pktnew
 //@   tags C01
